@@ -257,14 +257,29 @@ func CheckSharing(pc *PathCtx) {
 		}
 	}
 	// (i) sharing
-	if pc.Ret == nil {
+	ret, retT, what := pc.Ret, pc.RetT, "result"
+	src, srcT := pc.Src, pc.SrcT
+	if ret == nil && pc.TgtIdx >= 0 {
+		// update method: the "result" is what the target argument points to after the call
+		if tp, ok := pc.Args[pc.TgtIdx].(engine.Pointer); ok && tp.Slot != nil {
+			if pt, ok := pc.T.Sig.Params().At(pc.TgtIdx).Type().Underlying().(*types.Pointer); ok {
+				ret, retT, what = *tp.Slot, pt.Elem(), "target"
+			}
+		}
+		if sp, ok := src.(engine.Pointer); ok {
+			if spt, ok2 := srcT.Underlying().(*types.Pointer); ok2 && sp.Slot != nil {
+				src, srcT = *sp.Slot, spt.Elem()
+			}
+		}
+	}
+	if ret == nil {
 		return
 	}
 	pc.count(true)
 	resSet := map[*engine.Value]string{}
-	reach(pc.Ret, resSet, "result", 0)
+	reach(ret, resSet, what, 0)
 	allowed := map[*engine.Value]string{}
-	o.allowedShare(pc.Src, pc.SrcT, pc.Ret, pc.RetT, allowed, 0)
+	o.allowedShare(src, srcT, ret, retT, allowed, 0)
 	// results of custom functions are exempt
 	for _, c := range pc.Calls.Calls {
 		reach(c.Result, allowed, "custom", 0)
@@ -279,7 +294,7 @@ func CheckSharing(pc *PathCtx) {
 			}
 			pc.Rep.Discharged--
 			m, _ := pc.R.Witness(nil)
-			pc.Report("sharing", where, "result shares mutable memory with the source ("+srcWhere+")", m, false)
+			pc.Report("sharing", where, what+" shares mutable memory with the source ("+srcWhere+")", m, false)
 			return
 		}
 	}
